@@ -51,7 +51,7 @@ static std::string exec_cli(std::vector<std::string> args, const std::string &ou
   return o;
 }
 
-struct Fixture { Bytes plain2, file2, tampered, badhdr, plainA, plainB, plain4, file4, plain1, file1, fileK2; unsigned char key2[16]; std::string pA, pAenc, pOut, pDec; };
+struct Fixture { Bytes plain2, file2, tampered, badhdr, plainA, plainB, plain4, file4, plain1, file1, fileK2, tiny1; unsigned char key2[16]; std::string pA, pAenc, pOut, pDec; };
 static Fixture FX;
 static void make_fixture() {
   FX.plain2 = fo::content(3, 2 * S + 7); // every block ends in a byte that looks like PKCS#7 padding
@@ -64,6 +64,7 @@ static void make_fixture() {
   FX.file4 = ref::encrypt(FX.plain4, KEY, 2, 1, fo::cstr_seed("f4"), 4, S);
   memcpy(FX.key2, KEY, 16); FX.key2[5] ^= 0x40; FX.key2[15] ^= 0x01; // a second key: same first bytes (0x00 first), differs later
   FX.fileK2 = ref::encrypt(FX.plain2, FX.key2, 1, 0, fo::cstr_seed("k2"), 2, S);
+  FX.tiny1 = ref::encrypt(fo::content(0, 5), KEY, 0, 0, fo::cstr_seed("t1"), 1, S); // 84 bytes: shorter than the header a 4-worker reader expects (128)
   FX.plain1 = fo::content(3, 3 * S);
   FX.file1 = ref::encrypt(FX.plain1, KEY, 3, 2, fo::cstr_seed("f1"), 1, S);
 }
@@ -78,8 +79,9 @@ static void remove_files() { for (auto p : {FX.pA, FX.pAenc, FX.pOut, FX.pDec}) 
 
 static const char *OPN[] = {"enc(T=1,n=0)", "enc(T=4,multi-chunk,CTR,md5)", "enc(T=16,n=40)", "dec(valid,T=2)", "dec(tampered)", "dec(wrong key)", "dec(mode byte out of range)", "verify(valid)", "verify(tampered)",
                             "cli -e -i F -k K --cmode 1 -o O", "cli -e -d (two modes)", "cli -edv (fails inside a cluster)", "cli -d -i F.enc -k K -o O", "cli -v -i F.enc -k K", "cli -n -e (no input)", "cli --cmode 9 -e -i F", "dec(valid,T=4,10 chunks,pad-like)", "dec(valid,T=1,4 chunks,pad-like)", "enc(second key,T=2)", "dec(valid file of the second key,T=2)",
-                            "cli --cmode 99999999999999999999 -e -i F (number overflows)", "cli -e -i F -k K --cmode 2 --hmode 1 -o O"};
-static const int NOPS = 22;
+                            "cli --cmode 99999999999999999999 -e -i F (number overflows)", "cli -e -i F -k K --cmode 2 --hmode 1 -o O",
+                            "dec(the file given as valid before, altered in place: same inode, size and times)", "dec(the file given as tampered before, repaired in place)", "dec(5-byte file written with T=1, read with T=4)"};
+static const int NOPS = 25;
 static bool is_cli(int op) { return (op >= 9 && op <= 15) || op >= 20; }
 static std::string do_op(int op) {
   unsigned char wrong[16];
@@ -107,6 +109,9 @@ static std::string do_op(int op) {
   case 19: { fo::OpResult r = fo::wc_decrypt(FX.fileK2, FX.key2, 2); return std::string("ret=") + (r.ret ? "1" : "0") + ",out=" + dig(r.out); }
   case 20: return exec_cli({"wencry", "--cmode", "99999999999999999999", "-e", "-i", FX.pA}, "", {}); // leaves errno = ERANGE (and whatever else a failed conversion leaves) behind
   case 21: unlink(FX.pOut.c_str()); return exec_cli({"wencry", "-e", "-i", FX.pA, "-k", KEYTXT, "--cmode", "2", "--hmode", "1", "-o", FX.pOut}, FX.pOut, FX.plainA);
+  case 22: { fo::alter_in_place(FX.file2, FX.tampered); fo::OpResult r = fo::wc_decrypt(FX.tampered, KEY, 2); return std::string("ret=") + (r.ret ? "1" : "0") + ",out=" + dig(r.out); }
+  case 23: { fo::alter_in_place(FX.tampered, FX.file2); fo::OpResult r = fo::wc_decrypt(FX.file2, KEY, 2); return std::string("ret=") + (r.ret ? "1" : "0") + ",out=" + dig(r.out); }
+  case 24: { fo::OpResult r = fo::wc_decrypt(FX.tiny1, KEY, 4); return std::string("ret=") + (r.ret ? "1" : "0") + ",out=" + dig(r.out); }
   case 17: { fo::OpResult r = fo::wc_decrypt(FX.file1, KEY, 1); return std::string("ret=") + (r.ret ? "1" : "0") + ",out=" + dig(r.out); }
   }
   return "?";
@@ -173,7 +178,7 @@ int main(int argc, char **argv) {
   sp.on_death = [](const Case &c, const CaseResult &cr) {
     return "abnormal-end:" + std::string(cr.exitcode == 42 ? "deadlock" : cr.exitcode == 77 ? "memory-error(ASan)" : cr.timeout ? "hang" : "crash") + "|history " + c.str("h") + " did not run to its end: " + describe_death(cr);
   };
-  sp.alarm_s = 60;
+  sp.alarm_s = 15;
   // one history per child: the whole point is a fresh process image per history
   // (cases.hpp runs consecutive cases in one child, so wrap each case in its own fork)
   auto inner = sp.run;
@@ -182,7 +187,7 @@ int main(int argc, char **argv) {
     run_batch(1, [&](long) { return inner(c); }, [&](long, const CaseResult &cr) {
       if (cr.died) res = "abnormal-end:" + std::string(cr.exitcode == 42 ? "deadlock" : cr.exitcode == 77 ? "memory-error(ASan)" : cr.timeout ? "hang" : "crash") + "|history " + c.str("h") + " did not run to its end: " + describe_death(cr);
       else res = cr.obs;
-    }, 60);
+    }, 15);
     return res;
   };
   // solo observations are part of the report
